@@ -1123,9 +1123,9 @@ func vf38GoodNodeItem(rng *rand.Rand) stackitem.Item {
 // vf38DrawWeather decides how the RPC node behaves during the next step.  members is the
 // network map of the chain (well-formed entries) at that moment.  The returned list names
 // what is broken (empty = everything works).
-func vf38DrawWeather(rng *rand.Rand, members []stackitem.Item) (*vf38Weather, *vf38Timer, []string) {
+func vf38DrawWeather(rng *rand.Rand, members []stackitem.Item) (*vf38Weather, error, []string) {
 	w := &vf38Weather{cfg: "ok", duration: int64(1 + rng.IntN(1000)), height: "ok", nmap: "inline", cnrs: "empty", newEpoch: "ok", served: map[string]int{}}
-	tm := &vf38Timer{}
+	var timerErr error
 	w.nodes = slices.Clone(members)
 	if rng.IntN(2) == 0 {
 		w.nmap = "session"
@@ -1161,7 +1161,7 @@ func vf38DrawWeather(rng *rand.Rand, members []stackitem.Item) (*vf38Weather, *v
 		broken = append(broken, "height:rpc-error")
 	}
 	if hit() {
-		tm.err = errors.New("verif: timer refused the reset")
+		timerErr = errors.New("verif: timer refused the reset")
 		w.timerErr = true
 		broken = append(broken, "timer:reset-error")
 	}
@@ -1188,7 +1188,7 @@ func vf38DrawWeather(rng *rand.Rand, members []stackitem.Item) (*vf38Weather, *v
 		w.newEpoch = "rpc-error"
 		broken = append(broken, "newEpoch:rpc-error")
 	}
-	return w, tm, broken
+	return w, timerErr, broken
 }
 
 // TestVerif_C38_Epoch runs histories of new-epoch notifications, timer ticks and alphabet
@@ -1198,7 +1198,7 @@ func TestVerif_C38_Epoch(t *testing.T) {
 	defer r.Finish()
 	nHist := r.Pick(400, 6000)
 	steps := r.Pick(40, 60)
-	r.SetRule(fmt.Sprintf("%d seeded histories of %d steps over {NewEpoch notification with a growing epoch number (through the listener's notification pipeline), epoch timer tick, join alphabet, leave alphabet}; distinct = (alphabet?, epoch, step kind) triples observed; non-trivial = histories contain ticks in both membership states after at least one notification", nHist, steps))
+	r.SetRule(fmt.Sprintf("%d seeded histories of %d steps over {NewEpoch notification with a growing epoch number (through the listener's notification pipeline), epoch timer tick, join alphabet, leave alphabet}, each notification/tick under a seeded RPC-node fault plan (network configuration read, transaction height, timer reset, network map listing incl. iterator traversal and malformed entries, container listing, newEpoch call: each works or breaks independently; network map grows/shrinks between epochs); distinct = (alphabet?, epoch, step kind) triples and (alphabet?, faults of the last notification, newEpoch call outcome) observed; non-trivial = histories contain ticks in both membership states after at least one notification", nHist, steps))
 
 	for h := 0; h < nHist; h++ {
 		rng := r.Rand("hist", h)
@@ -1211,6 +1211,12 @@ func TestVerif_C38_Epoch(t *testing.T) {
 		isAlpha := rng.IntN(2) == 0
 		f.alphabet.set(isAlpha)
 		var trace []string
+		var members []stackitem.Item // network map of the chain
+		for i := rng.IntN(4); i > 0; i-- {
+			members = append(members, vf38GoodNodeItem(rng))
+		}
+		var afterNotify []string // what was broken while the last notification was handled; nil = no notification yet
+		prevTickRefused := false // the previous step was a tick whose newEpoch call the RPC node refused
 		for s := 0; s < steps; s++ {
 			kind := "tick"
 			switch x := rng.IntN(10); {
@@ -1220,6 +1226,29 @@ func TestVerif_C38_Epoch(t *testing.T) {
 				kind = "flip"
 			}
 			desc := map[string]any{"history": h, "step": s, "trace": trace}
+			var w *vf38Weather
+			var broken []string
+			if kind != "flip" {
+				if kind == "notify" && rng.IntN(2) == 0 {
+					// the network map of the new epoch differs from the previous one
+					if len(members) > 0 && rng.IntN(2) == 0 {
+						members = slices.Delete(slices.Clone(members), 0, 1)
+					} else {
+						members = append(slices.Clone(members), vf38GoodNodeItem(rng))
+					}
+				}
+				var timerErr error
+				w, timerErr, broken = vf38DrawWeather(rng, members)
+				f.chain.mu.Lock()
+				f.chain.wx = w
+				f.chain.mu.Unlock()
+				f.timer.err = timerErr
+				if kind == "tick" {
+					// a tick only talks to the RPC node through the newEpoch call
+					broken = slices.DeleteFunc(broken, func(b string) bool { return !strings.HasPrefix(b, "newEpoch:") })
+				}
+				desc["rpc_node_faults"] = broken
+			}
 			switch kind {
 			case "flip":
 				isAlpha = !isAlpha
@@ -1231,7 +1260,7 @@ func TestVerif_C38_Epoch(t *testing.T) {
 				if rng.IntN(5) == 0 {
 					next = cur + 1 + uint64(rng.IntN(3))
 				}
-				trace = append(trace, fmt.Sprintf("notify(%d)", next))
+				trace = append(trace, fmt.Sprintf("notify(%d)%v", next, broken))
 				ev := &state.ContainedNotificationEvent{Container: util.Uint256{byte(h), byte(s), 0x38}}
 				ev.ScriptHash = f.netmapSH
 				ev.Name = "NewEpoch"
@@ -1250,6 +1279,21 @@ func TestVerif_C38_Epoch(t *testing.T) {
 				cur = next
 				r.Eval(1)
 				r.Count("notifications", 1)
+				prevTickRefused = false
+				afterNotify = []string{}
+				for _, b := range broken {
+					if !strings.HasPrefix(b, "newEpoch:") {
+						afterNotify = append(afterNotify, b)
+						r.Count("notifications_handled_with_broken_"+b, 1)
+					}
+				}
+				if len(afterNotify) == 0 {
+					r.Count("notifications_handled_with_everything_working", 1)
+				}
+				for k, n := range w.served {
+					r.Count("rpc_node_answers_"+k, n)
+				}
+				r.Distinct(fmt.Sprintf("%v|notify|%v", isAlpha, afterNotify))
 				for _, c := range f.chain.take() {
 					if c.Method == "newEpoch" {
 						r.Violation("epoch|new-epoch-requested-on-notification", "a NewEpoch notification made the node ask for another epoch", desc)
@@ -1257,7 +1301,7 @@ func TestVerif_C38_Epoch(t *testing.T) {
 					r.Seen("calls_after_notification", c.Op+":"+c.Method)
 				}
 			case "tick":
-				trace = append(trace, "tick")
+				trace = append(trace, fmt.Sprintf("tick%v", broken))
 				if r.Guard(desc, func() { f.proc.HandleNewEpochTick() }) {
 					continue
 				}
@@ -1304,17 +1348,36 @@ func TestVerif_C38_Epoch(t *testing.T) {
 					case len(asked) > 1:
 						r.Violation("epoch|alphabet-tick-multiple-requests", fmt.Sprintf("alphabet node asked %d times on one tick: %v", len(asked), asked), desc)
 					case asked[0] != cur+1:
-						r.Violation("epoch|alphabet-tick-wrong-epoch", fmt.Sprintf("alphabet node at epoch %d asked for epoch %d, not %d", cur, asked[0], cur+1), desc)
+						key, how := "epoch|alphabet-tick-wrong-epoch", ""
+						if len(afterNotify) > 0 {
+							// names the history shape: the last notification was handled while auxiliary chain reads failed
+							key += "|last-notification-handled-under-rpc-faults"
+							how = fmt.Sprintf(" (the notification of epoch %d was handled while the RPC node failed %v)", cur, afterNotify)
+						}
+						desc["faults_while_last_notification_was_handled"] = afterNotify
+						r.Violation(key, fmt.Sprintf("alphabet node at epoch %d asked for epoch %d, not %d%s", cur, asked[0], cur+1, how), desc)
 					default:
 						r.Count("ticks_asking_exactly_next_epoch", 1)
 					}
+					for _, b := range afterNotify {
+						r.Count("alphabet_ticks_after_notification_with_broken_"+b, 1)
+					}
+					if prevTickRefused {
+						r.Count("alphabet_ticks_after_refused_newEpoch_call", 1)
+					}
+					prevTickRefused = w.newEpoch != "ok" && len(asked) > 0
 				} else {
+					prevTickRefused = false
 					r.Count("ticks_in_non_alphabet_state", 1)
 					if len(asked) > 0 {
 						r.Violation("epoch|non-alphabet-tick-requests-epoch", fmt.Sprintf("non-alphabet node asked for epoch %v on its timer tick", asked), desc)
 					}
 				}
+				for k, n := range w.served {
+					r.Count("rpc_node_answers_"+k, n)
+				}
 				r.Distinct(fmt.Sprintf("%v|%d|tick", isAlpha, cur))
+				r.Distinct(fmt.Sprintf("%v|tick-after|%v|%v", isAlpha, afterNotify, w.newEpoch))
 				if h < 2 && s < 6 {
 					r.Sample(desc)
 				}
@@ -1324,5 +1387,22 @@ func TestVerif_C38_Epoch(t *testing.T) {
 	}
 	if r.Counter("ticks_in_alphabet_state") == 0 || r.Counter("ticks_in_non_alphabet_state") == 0 || r.Counter("notifications") == 0 {
 		r.Inconclusive("histories did not cover ticks in both states and notifications")
+	}
+	// every auxiliary read of the notification handler must have been seen both working and
+	// broken (and really asked), each followed by a tick in alphabet state
+	for _, k := range []string{"config:rpc-error", "config:missing", "height:rpc-error", "timer:reset-error",
+		"listNodes:rpc-error", "listNodes:fault", "listNodes:bad-item", "listNodes:bad-state", "listNodes:traverse-error", "containers:rpc-error"} {
+		if r.Counter("alphabet_ticks_after_notification_with_broken_"+k) == 0 {
+			r.Inconclusive("no alphabet tick followed a notification handled while the RPC node answered " + k)
+		}
+	}
+	for _, k := range []string{"config:ok", "config:rpc-error", "height:ok", "height:rpc-error", "listNodes:inline", "listNodes:session",
+		"listNodes:rpc-error", "traverse:session", "traverse:traverse-error", "containers:empty", "containers:rpc-error", "newEpoch:ok", "newEpoch:rpc-error"} {
+		if r.Counter("rpc_node_answers_"+k) == 0 {
+			r.Inconclusive("the node never asked the RPC node for " + k + " (fault plan not exercised)")
+		}
+	}
+	if r.Counter("notifications_handled_with_everything_working") == 0 || r.Counter("alphabet_ticks_after_refused_newEpoch_call") == 0 {
+		r.Inconclusive("histories did not cover fault-free notifications and ticks after a refused newEpoch call")
 	}
 }
